@@ -8,3 +8,18 @@ pub fn set(s: usize) {
 pub fn get() -> usize {
   STEP.with(|c| c.get())
 }
+
+// global sequence number of probe deliveries (to order other side effects against them)
+thread_local! { static EVSEQ: Cell<usize> = Cell::new(0); }
+pub fn evseq_reset() {
+  EVSEQ.with(|c| c.set(0))
+}
+pub fn evseq_bump() -> usize {
+  EVSEQ.with(|c| {
+    c.set(c.get() + 1);
+    c.get()
+  })
+}
+pub fn evseq() -> usize {
+  EVSEQ.with(|c| c.get())
+}
